@@ -2480,7 +2480,14 @@ class Fn:
                     return (f'match {call} with\n| Ok (Some {r}, {self.tup(vs) if vs else "_"}) => {jc["ret"](r)}\n'
                             f'| Ok (None, {self.tup(vs) if vs else "_"}) =>\n{rest()}\n'
                             f'| Stuck => Stuck | Fuel => Fuel | Exn => Exn\nend')
-                return (f'match {call} with\n| Ok (Some {r}, _) => {jc["ret"](r)}\n'
+                ret_txt_ = jc["ret"](r)
+                lost_ = [v for v in vs if re.search(r'(?<![\w.])%s(?![\w.])' % re.escape(v), ret_txt_)]
+                if lost_:
+                    # soundness guard (found by C08): without "loop_return_keeps_state" a `return` inside the loop would make the
+                    # continuation read the PRE-loop values of variables/fields written in the loop
+                    raise TranslationError('return inside a loop of %s after writing %s: set "loop_return_keeps_state": true'
+                                           % (self.name, ', '.join(lost_)))
+                return (f'match {call} with\n| Ok (Some {r}, _) => {ret_txt_}\n'
                         f'| Ok (None, {self.tup(vs) if vs else "_"}) =>\n{rest()}\n'
                         f'| Stuck => Stuck | Fuel => Fuel | Exn => Exn\nend')
             return (f'match {call} with\n| Ok {self.tup(vs) if vs else "_"} =>\n{rest()}\n'
